@@ -66,12 +66,15 @@ Definition same_but_items (s s' : xml) : Prop :=
 Lemma same_but_items_refl s : same_but_items s s.
 Proof. exists (kids_of s). split; [now destruct s | reflexivity]. Qed.
 
-Theorem item_merge_shape k m b rc :
+(* the cases of an item-level merge, whatever happens: nothing changed, or the edit f of the
+   class was applied to the children of the addressed story *)
+Theorem item_merge_cases k m b rc :
   is_item_class k = true ->
   r_st (merge_kids o k m b rc) = kids_of rc \/
-  exists i s ik', nth_error (kids_of rc) i = Some s /\ has_tag t_story s = true /\
-    others ikey ik' = others ikey (kids_of s) /\
-    r_st (merge_kids o k m b rc) = update_nth i (fun s' => set_kids s' ik') (kids_of rc).
+  exists i s f, item_edit k m b = Some f /\
+    find_story (addressed_story k b) (kids_of rc) = FFound i /\
+    nth_error (kids_of rc) i = Some s /\ has_tag t_story s = true /\
+    r_st (merge_kids o k m b rc) = update_nth i (fun s' => set_kids s' (r_st (f (kids_of s)))) (kids_of rc).
 Proof.
   intros Hk.
   assert (Hf : exists f, item_edit k m b = Some f) by (destruct k; try discriminate Hk; eexists; reflexivity).
@@ -79,9 +82,9 @@ Proof.
   destruct (find_story (addressed_story k b) (kids_of rc)) as [i| |] eqn:Es.
   - assert (Hx : exists s, nth_error (kids_of rc) i = Some s /\ is_keyed skey s = true).
     { unfold find_story in Es. apply (lookup_found_nth_keyed skey str_eqb str_eqb_eq) in Es. exact Es. }
-    destruct Hx as (s & Hn & Hks). right. exists i, s, (r_st (f (kids_of s))).
-    split; [exact Hn|]. split; [unfold skey in Hks; now rewrite is_keyed_ckey in Hks|].
-    split; [now apply (item_edit_others k m b)|].
+    destruct Hx as (s & Hn & Hks). right. exists i, s, f.
+    split; [exact Hf|]. split; [reflexivity|]. split; [exact Hn|].
+    split; [unfold skey in Hks; now rewrite is_keyed_ckey in Hks|].
     now rewrite (item_merge_found o k m b rc i s f Hf Es Hn).
   - left. unfold merge_kids.
     assert (Hws : forall missing g, r_st missing = kids_of rc ->
@@ -97,6 +100,18 @@ Proof.
     { intros missing g. unfold with_story. now rewrite Es. }
     destruct k; try discriminate Hk; cbn [addressed_story] in *; try apply Hws.
     destruct (first_story_id b); [apply Hws | discriminate Es].
+Qed.
+
+Theorem item_merge_shape k m b rc :
+  is_item_class k = true ->
+  r_st (merge_kids o k m b rc) = kids_of rc \/
+  exists i s ik', nth_error (kids_of rc) i = Some s /\ has_tag t_story s = true /\
+    others ikey ik' = others ikey (kids_of s) /\
+    r_st (merge_kids o k m b rc) = update_nth i (fun s' => set_kids s' ik') (kids_of rc).
+Proof.
+  intros Hk. destruct (item_merge_cases k m b rc Hk) as [H|(i & s & f & Hf & _ & Hn & Ht & H)]; [now left|].
+  right. exists i, s, (r_st (f (kids_of s))). repeat split; try assumption.
+  now apply (item_edit_others k m b).
 Qed.
 
 (* ---- consequences for one story *)
